@@ -20,6 +20,7 @@ A program is JSON:
   {"p":"add_diagonal","a":P,"t":T}       {"p":"add_jitter","a":P,"v":int}
   {"p":"add_low_rank","a":P,"t":T}       a + B B^T
   {"p":"cat_rows","a":P,"B":T,"D":T}     [[a, B^T], [B, D]]
+  {"p":"diagonal","a":P}                 a.diagonal()  (tensor result; only as the last step)
 """
 import re
 
@@ -129,6 +130,8 @@ def _apply(p, P, a, b, dense):
         return a.transpose(P["d1"], P["d2"])
     if p == "sum":
         return a.sum(P["dim"])
+    if p == "diagonal":                      # LinearOperator.diagonal(): a TENSOR (terminal step)
+        return a.diagonal(dim1=-2, dim2=-1) if dense else a.diagonal()
     if p == "prod":
         return a.prod(P["dim"])
     if p == "repeat":
